@@ -125,7 +125,7 @@ def run(tier, seed):
     rep = Report(PID, tier, seed, "proof")
     po = proof_obligations("WowVerif.Thm.C01", ["wowdrv"])
     add_proof_failures(rep, po)
-    conts = build_corpus()
+    conts = build_corpus(expanded=True)
     rc, out, har = harness_build("world")
     if rc != 0:
         rep.violation("C01/harness-build", "harness does not build against /repo", {"log": out[-3000:]}, no_input=True)
